@@ -108,9 +108,30 @@ def lean_sources():
     return sorted(res)
 
 
-def forbidden_scan():
+def module_closure(module):
+    """Lean source files the module depends on (within this project), plus the driver."""
+    seen = set()
+    todo = [module, "AmqModel.Driver.Engines", "Driver"]
+    files = []
+    while todo:
+        m = todo.pop()
+        if m in seen:
+            continue
+        seen.add(m)
+        path = os.path.join(LEAN, m.replace(".", "/") + ".lean")
+        if not os.path.exists(path):
+            continue
+        files.append(path)
+        for line in open(path):
+            mm = re.match(r"\s*import\s+(AmqModel[\w.]*|Driver)\s*$", line)
+            if mm:
+                todo.append(mm.group(1))
+    return sorted(files)
+
+
+def forbidden_scan(module=None):
     hits = []
-    for path in lean_sources():
+    for path in (module_closure(module) if module else lean_sources()):
         src = strip_comments(open(path).read())
         for ln, line in enumerate(src.split("\n"), 1):
             if FORBIDDEN.search(line):
